@@ -301,8 +301,8 @@ theorem isPrefixOf_append_self (mk t : Bytes) : mk.isPrefixOf (mk ++ t) = true :
   List.isPrefixOf_iff_prefix.mpr (List.prefix_append mk t)
 
 /-- only part of `CRLF --boundary` has arrived: no match -/
-theorem delimSearch_region_short {mk D1 u : Bytes} (hmk : mk ≠ []) (hu : u ≠ [])
-    (h : D1 ++ u = 13 :: 10 :: mk) : delimSearch false mk D1 = none := by
+theorem delimSearch_region_short {o : Bool} {mk D1 u : Bytes} (hmk : mk ≠ []) (hu : u ≠ [])
+    (h : D1 ++ u = 13 :: 10 :: mk) : delimSearch o mk D1 = none := by
   have hmklen : 0 < mk.length := List.length_pos_iff.mpr hmk
   have hulen : 0 < u.length := List.length_pos_iff.mpr hu
   have hlen : D1.length + u.length = 2 + mk.length := by
@@ -318,18 +318,41 @@ theorem delimSearch_region_short {mk D1 u : Bytes} (hmk : mk ≠ []) (hu : u ≠
     subst hx; subst hy
     have hm1 : m1.length < mk.length := by simp at hlen; omega
     have hp := isPrefixOf_false_of_length_lt hm1
-    have h1 : matchDelimAt false mk (13 :: 10 :: m1) = none := by
+    have h1 : matchDelimAt o mk (13 :: 10 :: m1) = none := by
       unfold matchDelimAt; simp [lbLen, hp]
-    have h2 : matchDelimAt false mk (10 :: m1) = none := by
+    have h2 : matchDelimAt o mk (10 :: m1) = none := by
       unfold matchDelimAt; simp [lbLen, hp]
     rw [delimSearch_cons_none _ _ _ _ h1, delimSearch_cons_none _ _ _ _ h2,
-      delimSearch_none_of_short false mk m1 (by omega)]
+      delimSearch_none_of_short o mk m1 (by omega)]
     rfl
 
+/-- the marker itself at the head (only `preamble_re`, whose leading line break is
+optional, can match here), with an incomplete continuation -/
+theorem delimSearch_marker_incomplete {o : Bool} {mk t1 : Bytes} (hmk : mk ≠ []) (hno : NoLB mk)
+    (ham : afterMarker t1 = none) (ht1 : t1 = [] ∨ t1 = [45]) : delimSearch o mk (mk ++ t1) = none := by
+  cases hm : mk with
+  | nil => exact absurd hm hmk
+  | cons x r =>
+    have hx : isLB x = false := hno x (by rw [hm]; simp)
+    have hdrop : ((x :: r) ++ t1).drop (x :: r).length = t1 := by simp
+    have hhead : matchDelimAt o (x :: r) (x :: (r ++ t1)) = none := by
+      have hl : lbLen (x :: (r ++ t1)) = 0 := lbLen_cons_of_not_isLB _ hx
+      unfold matchDelimAt
+      simp only [hl]
+      split
+      · rfl
+      · have hp : (x :: r).isPrefixOf (x :: (r ++ t1)) = true := isPrefixOf_append_self (x :: r) t1
+        have hd : (x :: (r ++ t1)).drop (0 + (x :: r).length) = t1 := by simpa using hdrop
+        simp only [List.drop_zero, hp, if_true, hd, ham]
+    show delimSearch o (x :: r) (x :: (r ++ t1)) = none
+    rw [delimSearch_cons_none _ _ _ _ hhead, delimSearch_none_of_short o (x :: r) (r ++ t1)]
+    · rfl
+    · rcases ht1 with rfl | rfl <;> simp
+
 /-- the whole `CRLF --boundary` has arrived together with `t1` of what follows -/
-theorem delimSearch_region_full {mk t1 : Bytes} (hno : NoLB mk)
+theorem delimSearch_region_full {o : Bool} {mk t1 : Bytes} (hmk : mk ≠ []) (hno : NoLB mk)
     (ht1 : afterMarker t1 = none → t1 = [] ∨ t1 = [45]) :
-    delimSearch false mk (13 :: 10 :: (mk ++ t1)) =
+    delimSearch o mk (13 :: 10 :: (mk ++ t1)) =
       (afterMarker t1).map fun (r : Nat × Bool) => (0, 2 + mk.length + r.1, r.2) := by
   have hdrop : (mk ++ t1).drop mk.length = t1 := by simp
   have hdrop2 : (13 :: 10 :: (mk ++ t1)).drop (2 + mk.length) = t1 := by
@@ -339,28 +362,20 @@ theorem delimSearch_region_full {mk t1 : Bytes} (hno : NoLB mk)
   cases ham : afterMarker t1 with
   | some r =>
     obtain ⟨n, f⟩ := r
-    have h1 : matchDelimAt false mk (13 :: 10 :: (mk ++ t1)) = some (2 + mk.length + n, f) := by
+    have h1 : matchDelimAt o mk (13 :: 10 :: (mk ++ t1)) = some (2 + mk.length + n, f) := by
       unfold matchDelimAt
       simp [lbLen, isPrefixOf_append_self, hdrop, hdrop1, hdrop2, ham]
     rw [delimSearch_cons_some _ _ _ _ _ _ h1]
     rfl
   | none =>
-    have h1 : matchDelimAt false mk (13 :: 10 :: (mk ++ t1)) = none := by
+    have h1 : matchDelimAt o mk (13 :: 10 :: (mk ++ t1)) = none := by
       unfold matchDelimAt
       simp [lbLen, isPrefixOf_append_self, hdrop, hdrop1, hdrop2, ham]
-    have h2 : matchDelimAt false mk (10 :: (mk ++ t1)) = none := by
+    have h2 : matchDelimAt o mk (10 :: (mk ++ t1)) = none := by
       unfold matchDelimAt
       simp [lbLen, isPrefixOf_append_self, hdrop, hdrop1, hdrop2, ham]
-    have h3 : delimSearch false mk (mk ++ t1) = none := by
-      apply delimSearch_false_none_of_noLB
-      intro x hx
-      rw [List.mem_append] at hx
-      rcases hx with hx | hx
-      · exact hno x hx
-      · rcases ht1 ham with rfl | rfl
-        · cases hx
-        · simp at hx; subst hx; decide
-    rw [delimSearch_cons_none _ _ _ _ h1, delimSearch_cons_none _ _ _ _ h2, h3]
+    rw [delimSearch_cons_none _ _ _ _ h1, delimSearch_cons_none _ _ _ _ h2,
+      delimSearch_marker_incomplete hmk hno ham (ht1 ham)]
     rfl
 
 /-! ### `findSub` finds an occurrence when there is one -/
@@ -470,24 +485,24 @@ theorem holdBack_partial_crlf {mk c m : Bytes} (hm : ∀ y ∈ m, isLB y = false
 its closing delimiter are being received.  Either nothing is found and the
 hold-back index does not reach beyond the content, or the complete delimiter is
 in the buffer and is found exactly at the end of the content. -/
-theorem dataSearch_spec {b c tail buf rest : Bytes} (hno : NoLB (marker b)) (hfree : Free (marker b) c)
+theorem delimSearch_spec {o : Bool} {b c tail buf rest : Bytes} (hno : NoLB (marker b))
+    (hfree : Free (marker b) c)
     (htail : TailOK tail) (h : buf ++ rest = c ++ 13 :: 10 :: (marker b ++ tail)) :
-    (dataSearch b buf = none ∧ holdBack (marker b) buf ≤ c.length ∧ holdBack (marker b) buf ≤ buf.length) ∨
+    (delimSearch o (marker b) buf = none ∧ holdBack (marker b) buf ≤ c.length ∧
+      holdBack (marker b) buf ≤ buf.length) ∨
     (∃ t1 n f, buf = c ++ 13 :: 10 :: (marker b ++ t1) ∧ t1 ++ rest = tail ∧ afterMarker t1 = some (n, f) ∧
-      dataSearch b buf = some (c.length, c.length + (2 + (marker b).length + n), f)) := by
+      delimSearch o (marker b) buf = some (c.length, c.length + (2 + (marker b).length + n), f)) := by
   have hmk : marker b ≠ [] := by simp [marker]
   have hle := holdBack_le (marker b) buf
   rcases List.append_eq_append_iff.mp h with ⟨a', hc, _⟩ | ⟨D1, hbuf, hX⟩
   · -- the buffer ends inside the content
     left
     refine ⟨?_, ?_, hle⟩
-    · have : delimSearch false (marker b) buf = none := by
-        apply delimSearch_none_of_forall
-        intro A1 A2 hA hne
-        have hfb : Free (marker b) buf := hfree.of_infix (by rw [hc]; exact (List.prefix_append buf a').isInfix)
-        have := matchDelimAt_none_in_content (o := false) hfb hno hmk A1 A2 [] hA hne (Or.inl rfl)
-        simpa using this
-      unfold dataSearch; split <;> simp [this]
+    · apply delimSearch_none_of_forall
+      intro A1 A2 hA hne
+      have hfb : Free (marker b) buf := hfree.of_infix (by rw [hc]; exact (List.prefix_append buf a').isInfix)
+      have := matchDelimAt_none_in_content (o := o) hfb hno hmk A1 A2 [] hA hne (Or.inl rfl)
+      simpa using this
     · have : buf.length ≤ c.length := by rw [hc]; simp
       omega
   · -- the buffer reaches into the delimiter region
@@ -498,8 +513,8 @@ theorem dataSearch_spec {b c tail buf rest : Bytes} (hno : NoLB (marker b)) (hfr
         simp only [List.cons_append] at hX
         injection hX with hx _
         exact Or.inr ⟨r, by rw [hx]⟩
-    have hshift : delimSearch false (marker b) buf =
-        (delimSearch false (marker b) D1).map fun (r : Nat × Nat × Bool) =>
+    have hshift : delimSearch o (marker b) buf =
+        (delimSearch o (marker b) D1).map fun (r : Nat × Nat × Bool) =>
           (r.1 + c.length, r.2.1 + c.length, r.2.2) := by
       rw [hbuf]
       apply delimSearch_append_left
@@ -510,14 +525,13 @@ theorem dataSearch_spec {b c tail buf rest : Bytes} (hno : NoLB (marker b)) (hfr
     · -- the whole `CRLF --boundary` is there
       have hD' : D1 = 13 :: 10 :: (marker b ++ t1) := by simpa using hD
       have hnone := fun hn => afterMarker_none_prefix (rest := rest) ht.symm htail hn
-      have hfull := delimSearch_region_full (mk := marker b) (t1 := t1) hno hnone
+      have hfull := delimSearch_region_full (o := o) (mk := marker b) (t1 := t1) hmk hno hnone
       cases ham : afterMarker t1 with
       | none =>
         left
         rw [ham] at hfull
         refine ⟨?_, ?_, hle⟩
-        · have : delimSearch false (marker b) buf = none := by rw [hshift, hD', hfull]; rfl
-          unfold dataSearch; split <;> simp [this]
+        · rw [hshift, hD', hfull]; rfl
         · rw [hbuf, hD']
           have hnolb : ∀ y ∈ marker b ++ t1, isLB y = false := by
             intro y hy
@@ -538,39 +552,26 @@ theorem dataSearch_spec {b c tail buf rest : Bytes} (hno : NoLB (marker b)) (hfr
         obtain ⟨n, f⟩ := r
         rw [ham] at hfull
         refine ⟨t1, n, f, by rw [hbuf, hD'], ht.symm, ham, ?_⟩
-        have hds : delimSearch false (marker b) buf =
-            some (c.length, c.length + (2 + (marker b).length + n), f) := by
-          rw [hshift, hD', hfull]
-          simp [Nat.add_comm]
-        have hfind : (findSub (marker b) buf).isSome = true := by
-          apply findSub_isSome_of_infix
-          rw [hbuf, hD']
-          exact ⟨c ++ [13, 10], t1, by simp⟩
-        unfold dataSearch
-        rw [hds]
-        cases hf : findSub (marker b) buf with
-        | none => rw [hf] at hfind; cases hfind
-        | some i => rfl
+        rw [hshift, hD', hfull]
+        simp [Nat.add_comm]
     · -- only part of `CRLF --boundary` is there
       left
       by_cases hu : u = []
       · -- exactly `CRLF --boundary`: same as the full case with nothing after it
         subst hu
         have hD' : D1 = 13 :: 10 :: (marker b ++ []) := by simpa using hreg.symm
-        have hfull := delimSearch_region_full (mk := marker b) (t1 := []) hno (fun _ => Or.inl rfl)
+        have hfull := delimSearch_region_full (o := o) (mk := marker b) (t1 := []) hmk hno (fun _ => Or.inl rfl)
         rw [afterMarker_nil] at hfull
         refine ⟨?_, ?_, hle⟩
-        · have : delimSearch false (marker b) buf = none := by rw [hshift, hD', hfull]; rfl
-          unfold dataSearch; split <;> simp [this]
+        · rw [hshift, hD', hfull]; rfl
         · rw [hbuf, hD']
           have hnolb : ∀ y ∈ marker b ++ [], isLB y = false := by
             intro y hy; exact hno y (by simpa using hy)
           rw [holdBack_partial_crlf hnolb (maybeDelim_prefix (u := []) (by simp))]
           exact Nat.le_refl _
-      · have hshort := delimSearch_region_short hmk hu hreg.symm
+      · have hshort := delimSearch_region_short (o := o) hmk hu hreg.symm
         refine ⟨?_, ?_, hle⟩
-        · have : delimSearch false (marker b) buf = none := by rw [hshift, hshort]; rfl
-          unfold dataSearch; split <;> simp [this]
+        · rw [hshift, hshort]; rfl
         · rw [hbuf]
           match D1, hreg with
           | [], _ => simp only [List.append_nil]; exact holdBack_le _ _
@@ -587,5 +588,325 @@ theorem dataSearch_spec {b c tail buf rest : Bytes} (hno : NoLB (marker b)) (hfr
             have hnolb : ∀ z ∈ m1, isLB z = false := fun z hz => hno z (by rw [hreg]; simp [hz])
             rw [holdBack_partial_crlf hnolb (maybeDelim_prefix hreg.symm)]
             exact Nat.le_refl _
+
+/-- the DATA branch's guarded search -/
+theorem dataSearch_spec {b c tail buf rest : Bytes} (hno : NoLB (marker b)) (hfree : Free (marker b) c)
+    (htail : TailOK tail) (h : buf ++ rest = c ++ 13 :: 10 :: (marker b ++ tail)) :
+    (dataSearch b buf = none ∧ holdBack (marker b) buf ≤ c.length ∧ holdBack (marker b) buf ≤ buf.length) ∨
+    (∃ t1 n f, buf = c ++ 13 :: 10 :: (marker b ++ t1) ∧ t1 ++ rest = tail ∧ afterMarker t1 = some (n, f) ∧
+      dataSearch b buf = some (c.length, c.length + (2 + (marker b).length + n), f)) := by
+  rcases delimSearch_spec (o := false) hno hfree htail h with ⟨h1, h2, h3⟩ | ⟨t1, n, f, hb, ht, ham, hds⟩
+  · left
+    refine ⟨?_, h2, h3⟩
+    unfold dataSearch; split <;> simp [h1]
+  · right
+    refine ⟨t1, n, f, hb, ht, ham, ?_⟩
+    have hfind : (findSub (marker b) buf).isSome = true := by
+      apply findSub_isSome_of_infix
+      rw [hb]
+      exact ⟨c ++ [13, 10], t1, by simp⟩
+    unfold dataSearch
+    rw [hds]
+    cases hf : findSub (marker b) buf with
+    | none => rw [hf] at hfind; cases hfind
+    | some i => rfl
+
+/-! ### the PREAMBLE branch with an empty preamble: the body starts with the marker -/
+
+theorem delimSearch_marker_head {mk t1 : Bytes} (hmk : mk ≠ []) (hno : NoLB mk)
+    (ht1 : afterMarker t1 = none → t1 = [] ∨ t1 = [45]) :
+    delimSearch true mk (mk ++ t1) =
+      (afterMarker t1).map fun (r : Nat × Bool) => (0, mk.length + r.1, r.2) := by
+  cases ham : afterMarker t1 with
+  | none => rw [delimSearch_marker_incomplete hmk hno ham (ht1 ham)]; rfl
+  | some r =>
+    obtain ⟨n, f⟩ := r
+    cases hm : mk with
+    | nil => exact absurd hm hmk
+    | cons x rr =>
+      have hx : isLB x = false := hno x (by rw [hm]; simp)
+      have hl : lbLen (x :: (rr ++ t1)) = 0 := lbLen_cons_of_not_isLB _ hx
+      have hp : (x :: rr).isPrefixOf (x :: (rr ++ t1)) = true := isPrefixOf_append_self (x :: rr) t1
+      have hd : (x :: (rr ++ t1)).drop (0 + (x :: rr).length) = t1 := by simp
+      have hhead : matchDelimAt true (x :: rr) (x :: (rr ++ t1)) = some ((x :: rr).length + n, f) := by
+        unfold matchDelimAt
+        simp only [hl, List.drop_zero, hp, if_true, hd, ham]
+        simp
+      show delimSearch true (x :: rr) (x :: (rr ++ t1)) = _
+      rw [delimSearch_cons_some _ _ _ _ _ _ hhead]
+      rfl
+
+theorem preSearch_empty_spec {b tail buf rest : Bytes} (hno : NoLB (marker b)) (htail : TailOK tail)
+    (h : buf ++ rest = marker b ++ tail) :
+    delimSearch true (marker b) buf = none ∨
+    ∃ t1 n f, buf = marker b ++ t1 ∧ t1 ++ rest = tail ∧ afterMarker t1 = some (n, f) ∧
+      delimSearch true (marker b) buf = some (0, (marker b).length + n, f) := by
+  have hmk : marker b ≠ [] := by simp [marker]
+  rcases List.append_eq_append_iff.mp h with ⟨a', hm, _⟩ | ⟨t1, hb, ht⟩
+  · -- only part of the marker (or exactly the marker) is there
+    left
+    apply delimSearch_none_of_short
+    rw [hm]; simp
+  · have hnone := fun hn => afterMarker_none_prefix (rest := rest) ht.symm htail hn
+    have hhead := delimSearch_marker_head (t1 := t1) hmk hno hnone
+    cases ham : afterMarker t1 with
+    | none => left; rw [hb, hhead, ham]; rfl
+    | some r =>
+      obtain ⟨n, f⟩ := r
+      right
+      exact ⟨t1, n, f, hb, ht.symm, ham, by rw [hb, hhead, ham]; rfl⟩
+
+/-! ### the blank line that ends a header block -/
+
+theorem blankLineSearch_cons_zero (c : Nat) (cs : Bytes) (h : blankAt (c :: cs) = 0) :
+    blankLineSearch (c :: cs) =
+      (blankLineSearch cs).map fun (r : Nat × Nat) => (r.1 + 1, r.2 + 1) := by
+  rw [blankLineSearch]
+  simp only [h, Nat.lt_irrefl, if_false]
+  cases blankLineSearch cs with
+  | none => rfl
+  | some r => rfl
+
+theorem blankLineSearch_append_left :
+    ∀ (A l : Bytes), (∀ A1 A2, A = A1 ++ A2 → A2 ≠ [] → blankAt (A2 ++ l) = 0) →
+      blankLineSearch (A ++ l) =
+        (blankLineSearch l).map fun (r : Nat × Nat) => (r.1 + A.length, r.2 + A.length)
+  | [], l, _ => by
+    cases h : blankLineSearch l with
+    | none => simp [h]
+    | some r => simp [h]
+  | a :: A, l, hno => by
+    have hhead : blankAt (a :: (A ++ l)) = 0 := by
+      have := hno [] (a :: A) rfl (by simp)
+      simpa using this
+    have ih := blankLineSearch_append_left A l (fun A1 A2 hA hne => hno (a :: A1) A2 (by simp [hA]) hne)
+    show blankLineSearch (a :: (A ++ l)) = _
+    rw [blankLineSearch_cons_zero _ _ hhead, ih]
+    cases blankLineSearch l with
+    | none => rfl
+    | some r => simp [Nat.add_assoc]
+
+theorem blankAt_le_length (l : Bytes) : blankAt l ≤ l.length := by
+  unfold blankAt
+  split
+  · split
+    · simp
+    · split
+      · simp
+      · split
+        · split
+          · split <;> simp
+          · simp
+        · simp
+  · simp
+
+theorem blankLineSearch_none_of_short (l : Bytes) (h : ∀ A1 A2, l = A1 ++ A2 → blankAt A2 = 0) :
+    blankLineSearch l = none := by
+  have := blankLineSearch_append_left l [] (fun A1 A2 hA _ => by simpa using h A1 A2 hA)
+  simpa [blankLineSearch] using this
+
+/-- a header block as the encoder writes it: non-empty, starts with a visible
+character, does not end with a line break, contains no blank line -/
+def HdrOK (H : Bytes) : Prop :=
+  (∃ x r, H = x :: r ∧ isLB x = false ∧ x ≠ 32 ∧ x ≠ 9) ∧
+  (∃ r x, H = r ++ [x] ∧ isLB x = false) ∧
+  (∀ A1 A2, H = A1 ++ A2 → blankAt A2 = 0)
+
+theorem not_isLB {x : Nat} (h : isLB x = false) : x ≠ 13 ∧ x ≠ 10 := by
+  constructor <;> (intro hx; subst hx; cases h)
+
+theorem blankAt_cons_cons (a b : Nat) (rest : Bytes) :
+    blankAt (a :: b :: rest) =
+      if a = 13 ∧ b = 13 then 2
+      else if a = 10 ∧ b = 10 then 2
+      else if a = 13 ∧ b = 10 then
+        match rest with
+        | c :: d :: _ => if c = 13 ∧ d = 10 then 4 else 0
+        | _ => 0
+      else 0 := by
+  rfl
+
+/-- a text that ends with a non-line-break byte and has no blank line at its head
+keeps having none there whatever is appended -/
+theorem blankAt_append_of_last {r : Bytes} {z : Nat} (hz : isLB z = false) (D : Bytes)
+    (h0 : blankAt (r ++ [z]) = 0) : blankAt (r ++ [z] ++ D) = 0 := by
+  obtain ⟨hz13, hz10⟩ := not_isLB hz
+  match r with
+  | [] =>
+    cases D with
+    | nil => simp [blankAt]
+    | cons d D =>
+      simp only [List.nil_append, List.cons_append]
+      rw [blankAt_cons_cons]; simp [hz13, hz10]
+  | [x] =>
+    simp only [List.cons_append, List.nil_append]
+    rw [blankAt_cons_cons]; simp [hz13, hz10]
+  | [x, y] =>
+    simp only [List.cons_append, List.nil_append] at h0 ⊢
+    rw [blankAt_cons_cons] at h0 ⊢
+    by_cases h1 : x = 13 ∧ y = 13
+    · simp [h1] at h0
+    · by_cases h2 : x = 10 ∧ y = 10
+      · simp [h2] at h0
+      · simp only [h1, h2, if_false]
+        by_cases h3 : x = 13 ∧ y = 10
+        · simp only [h3, and_self, if_true]
+          cases D with
+          | nil => rfl
+          | cons d D => simp [hz13]
+        · simp [h3]
+  | [x, y, w] =>
+    simp only [List.cons_append, List.nil_append] at h0 ⊢
+    rw [blankAt_cons_cons] at h0 ⊢
+    by_cases h1 : x = 13 ∧ y = 13
+    · simp [h1] at h0
+    · by_cases h2 : x = 10 ∧ y = 10
+      · simp [h2] at h0
+      · simp only [h1, h2, if_false] at h0 ⊢
+        by_cases h3 : x = 13 ∧ y = 10
+        · simp only [h3, and_self, if_true] at h0 ⊢
+          exact h0
+        · simp [h3]
+  | x :: y :: w :: v :: t =>
+    simp only [List.cons_append] at h0 ⊢
+    rw [blankAt_cons_cons] at h0 ⊢
+    exact h0
+
+/-- cutting a text does not create a blank-line match at its head -/
+theorem blankAt_prefix_zero (A D : Bytes) (h : blankAt (A ++ D) = 0) : blankAt A = 0 := by
+  match A with
+  | [] => rfl
+  | [x] => rfl
+  | [x, y] =>
+    simp only [List.cons_append, List.nil_append] at h
+    rw [blankAt_cons_cons] at h ⊢
+    by_cases h1 : x = 13 ∧ y = 13
+    · simp [h1] at h
+    · by_cases h2 : x = 10 ∧ y = 10
+      · simp [h2] at h
+      · simp only [h1, h2, if_false]
+        split <;> rfl
+  | [x, y, w] =>
+    simp only [List.cons_append, List.nil_append] at h
+    rw [blankAt_cons_cons] at h ⊢
+    by_cases h1 : x = 13 ∧ y = 13
+    · simp [h1] at h
+    · by_cases h2 : x = 10 ∧ y = 10
+      · simp [h2] at h
+      · simp only [h1, h2, if_false]
+        split <;> rfl
+  | x :: y :: w :: v :: t =>
+    simp only [List.cons_append] at h
+    rw [blankAt_cons_cons] at h ⊢
+    exact h
+
+/-- The PART branch while a header block `H` and (a prefix of) the blank line
+after it are being received: the blank line is found exactly when all four of
+its bytes are in the buffer, and exactly at the end of the block (a stray LF
+left over from the delimiter's CRLF may sit in front). -/
+theorem blankLineSearch_spec {slack H R buf rest : Bytes} (hs : slack = [] ∨ slack = [10]) (hH : HdrOK H)
+    (h : buf ++ rest = slack ++ H ++ 13 :: 10 :: 13 :: 10 :: R) :
+    blankLineSearch buf = none ∨
+    ∃ r1, buf = slack ++ H ++ 13 :: 10 :: 13 :: 10 :: r1 ∧ r1 ++ rest = R ∧
+      blankLineSearch buf = some ((slack ++ H).length, (slack ++ H).length + 4) := by
+  obtain ⟨⟨x, hr, hHx, hx, _, _⟩, ⟨r, z, hHz, hz⟩, hblank⟩ := hH
+  -- no blank line starts inside `slack ++ H`, whatever follows
+  have hinside : ∀ (D : Bytes) A1 A2, slack ++ H = A1 ++ A2 → A2 ≠ [] → blankAt (A2 ++ D) = 0 := by
+    intro D A1 A2 hA hne
+    -- A2 is `10 :: H` or a non-empty suffix of `H`
+    have hcase : A2 = 10 :: H ∨ ∃ B1, H = B1 ++ A2 := by
+      rcases hs with rfl | rfl
+      · exact Or.inr ⟨A1, by simpa using hA⟩
+      · cases A1 with
+        | nil => left; simpa using hA.symm
+        | cons a A1 =>
+          right
+          simp only [List.cons_append, List.nil_append] at hA
+          injection hA with _ hA
+          exact ⟨A1, hA⟩
+    rcases hcase with rfl | ⟨B1, hB⟩
+    · obtain ⟨hx13, hx10⟩ := not_isLB hx
+      rw [hHx]
+      simp only [List.cons_append]
+      unfold blankAt
+      simp [hx10]
+    · -- A2 ends with `z`
+      have hA2z : ∃ r', A2 = r' ++ [z] := by
+        have : A2 <:+ r ++ [z] := by rw [← hHz, hB]; exact List.suffix_append _ _
+        obtain ⟨p, hp⟩ := this
+        cases hl : A2.reverse with
+        | nil => simp at hl; exact absurd hl hne
+        | cons y t =>
+          have hA2 : A2 = t.reverse ++ [y] := by
+            have := congrArg List.reverse hl; simpa using this
+          refine ⟨t.reverse, ?_⟩
+          rw [hA2] at hp
+          have := congrArg List.getLast? hp
+          simp at this
+          rw [hA2, this]
+      obtain ⟨r', hr'⟩ := hA2z
+      rw [hr']
+      apply blankAt_append_of_last hz
+      rw [← hr']
+      exact hblank B1 A2 hB
+  rcases List.append_eq_append_iff.mp h with ⟨a', hc, _⟩ | ⟨D1, hbuf, hX⟩
+  · -- the buffer ends inside the header block
+    left
+    apply blankLineSearch_none_of_short
+    intro A1 A2 hA
+    by_cases hne : A2 = []
+    · subst hne; rfl
+    · have h2 := hinside [] A1 (A2 ++ a') (by rw [hc, hA]; simp) (by simp [hne])
+      exact blankAt_prefix_zero A2 a' (by simpa using h2)
+  · -- the buffer reaches into the blank line
+    have hshift : blankLineSearch buf =
+        (blankLineSearch D1).map fun (r : Nat × Nat) => (r.1 + (slack ++ H).length, r.2 + (slack ++ H).length) := by
+      rw [hbuf]
+      exact blankLineSearch_append_left (slack ++ H) D1 (hinside D1)
+    have hX' : [13, 10, 13, 10] ++ R = D1 ++ rest := by simpa using hX
+    rcases List.append_eq_append_iff.mp hX' with ⟨r1, hD, hr⟩ | ⟨u, hreg, _⟩
+    · right
+      have hD' : D1 = 13 :: 10 :: 13 :: 10 :: r1 := by simpa using hD
+      refine ⟨r1, by rw [hbuf, hD'], hr.symm, ?_⟩
+      rw [hshift, hD']
+      have : blankLineSearch (13 :: 10 :: 13 :: 10 :: r1) = some (0, 4) := by
+        rw [blankLineSearch]; simp [blankAt]
+      rw [this]; simp; omega
+    · by_cases hu : u = []
+      · subst hu
+        right
+        have hD' : D1 = 13 :: 10 :: 13 :: 10 :: [] := by simpa using hreg.symm
+        refine ⟨[], by rw [hbuf, hD'], ?_, ?_⟩
+        · -- rest = R
+          have := congrArg (List.drop 4) hX'
+          simpa [hD'] using this.symm
+        · rw [hshift, hD']
+          have : blankLineSearch (13 :: 10 :: 13 :: 10 :: []) = some (0, 4) := by
+            rw [blankLineSearch]; simp [blankAt]
+          rw [this]; simp; omega
+      · left
+        rw [hshift]
+        have : blankLineSearch D1 = none := by
+          have hlen : D1.length < 4 := by
+            have := congrArg List.length hreg
+            simp at this
+            have : 0 < u.length := List.length_pos_iff.mpr hu
+            omega
+          match D1, hreg, hlen with
+          | [], _, _ => rfl
+          | [a], hreg, _ =>
+            simp only [List.cons_append, List.nil_append] at hreg
+            injection hreg with ha _; subst ha
+            rw [blankLineSearch]; simp [blankAt, blankLineSearch]
+          | [a, b'], hreg, _ =>
+            simp only [List.cons_append, List.nil_append] at hreg
+            injection hreg with ha hreg; injection hreg with hb _; subst ha; subst hb
+            rw [blankLineSearch]; simp [blankAt, blankLineSearch]
+          | [a, b', c'], hreg, _ =>
+            simp only [List.cons_append, List.nil_append] at hreg
+            injection hreg with ha hreg; injection hreg with hb hreg; injection hreg with hc' _
+            subst ha; subst hb; subst hc'
+            rw [blankLineSearch]; simp [blankAt, blankLineSearch]
+        rw [this]; rfl
 
 end Baize.Multipart
